@@ -278,6 +278,15 @@ def gen_cycle_scenario(R):
     a, b, v = R.choice([0, 1, 2, 1000]), R.choice([1, 2, 1001]), R.choice([0, 1, 2])
     if a == b:
         b = 1001
+    if R.random() < 0.15:
+        # a cycle is rejected (the evaluation raises) and AFTERWARDS an unrelated function assigns what the failed one had
+        # read: that is no cycle and must not be rejected (the record must not outlive a failed evaluation either)
+        failing = ("read", 0, 0, [("write", 0, 0, v, ("ret", 3))] * 3)
+        later = ("write", 0, 0, R.choice([0, 1, 2]), ("ret", 4))
+        lines = ["scenario comp 0.0.obs,0.1.obs,0.2.comp,0.3.comp -", f"assign 0 0 {a}", f"define 0 0 2 {fmt_tree(failing)}"]
+        lines += R.sample(["read 0", f"assign 0 1 {b}", "read 0"], R.randrange(0, 3))
+        lines += [f"define 1 0 3 {fmt_tree(later)}", "read 1", f"assign 0 1 {gen_val(R)}", "read 1"]
+        return core.Scenario(lines, {"mode": "cycle"})
     inner = ("read", 0, 1, [("ret", 0), ("ret", 1), ("ret", 2)])
     kind = R.choice(["direct", "direct", "direct", "through", "nocycle"])
     if kind == "direct":
